@@ -124,12 +124,12 @@ def check(ctx):
             big.append("StrtoBig %s %d %d %s %d" % (fn, ch, k, fmt([ord(c) for c in tail]), 10))
     tb = ctx.drive(drv, big, "stdlib_big", timeout=1500, par=1)
     bad = ctx.judge("StdlibTrace", [t, tb], shards=16)
+    for b in bad: b["driver"] = "drv_stdlib"
     # the second build configuration (size-optimised, plain char unsigned) on part of the executions
     ta = ctx.drive(build(ctx, alt=True), core.subset_executions(script, ctx.seed, 1.0 if ctx.thorough else 0.34), "stdlib_alt")
     bada = ctx.judge("StdlibTrace", [ta], shards=16)
     for b in bada: b["driver"] = "drv_stdlib@alt"
     bad += bada
-    for b in bad: b["driver"] = "drv_stdlib"
     ctx.report(bad)
     ctx.assumptions += [
         "LP64: long, long long and intmax_t are 64 bit, int 32 bit; atoi/atol are compared only where the value is representable (ISO leaves overflow undefined)",
